@@ -88,20 +88,49 @@ def case_from_replay(inp):
 
 
 def shrink_ctx(cx):
+    """Smaller contexts: drop one row / one column; for big tables drop blocks (halves, quarters, ...) first and
+    only a sample of single rows / columns, so that a round stays cheap."""
     out = []
-    for g in range(cx.nG):
-        if cx.nG > 1:
-            c2 = gen.Ctx(cx.rows[:g] + cx.rows[g + 1:], cx.nM, cx.tag)
-            c2.objects = cx.objects[:g] + cx.objects[g + 1:]
-            c2.properties = cx.properties
-            out.append(c2)
-    for m in range(cx.nM):
-        if cx.nM > 1:
-            rows = [(r & ((1 << m) - 1)) | ((r >> (m + 1)) << m) for r in cx.rows]
-            c2 = gen.Ctx(rows, cx.nM - 1, cx.tag)
-            c2.objects = cx.objects
-            c2.properties = cx.properties[:m] + cx.properties[m + 1:]
-            out.append(c2)
+
+    def without_rows(idx):
+        keep = [g for g in range(cx.nG) if g not in idx]
+        if not keep or len(keep) == cx.nG:
+            return
+        c2 = gen.Ctx([cx.rows[g] for g in keep], cx.nM, cx.tag)
+        c2.objects = [cx.objects[g] for g in keep]
+        c2.properties = cx.properties
+        out.append(c2)
+
+    def without_cols(idx):
+        keep = [m for m in range(cx.nM) if m not in idx]
+        if not keep or len(keep) == cx.nM:
+            return
+        rows = [sum(((r >> m) & 1) << k for k, m in enumerate(keep)) for r in cx.rows]
+        c2 = gen.Ctx(rows, len(keep), cx.tag)
+        c2.objects = cx.objects
+        c2.properties = [cx.properties[m] for m in keep]
+        out.append(c2)
+
+    def blocks(n):
+        res = []
+        size = n // 2
+        while size >= 2:
+            for start in range(0, n, size):
+                res.append(set(range(start, min(n, start + size))))
+            size //= 2
+        return res[:12]
+    if cx.nG > 24:
+        for b in blocks(cx.nG):
+            without_rows(b)
+    if cx.nM > 24:
+        for b in blocks(cx.nM):
+            without_cols(b)
+    rows_single = range(cx.nG) if cx.nG <= 24 else sorted(set(list(range(6)) + list(range(cx.nG - 6, cx.nG))))
+    cols_single = range(cx.nM) if cx.nM <= 24 else sorted(set(list(range(6)) + list(range(cx.nM - 6, cx.nM))))
+    for g in rows_single:
+        without_rows({g})
+    for m in cols_single:
+        without_cols({m})
     return out
 
 
